@@ -14,11 +14,8 @@ use std::time::{Duration, Instant};
 
 static WATCHDOGS: std::sync::atomic::AtomicU32 = std::sync::atomic::AtomicU32::new(0);
 
-#[derive(Clone, Copy, Debug, PartialEq, Eq)]
-enum Turn {
-    Scheduler,
-    Worker(usize),
-}
+/// a granted worker that makes no progress for this long is presumed blocked on a lock
+const BLOCK_MS: u64 = 100;
 
 #[derive(Clone, Copy, Debug)]
 pub struct PSite {
@@ -30,7 +27,13 @@ pub struct PSite {
 }
 
 pub struct State {
-    turn: Turn,
+    /// worker i has been given the baton and has not parked since
+    granted: Vec<bool>,
+    /// the worker the scheduler is waiting for (None = nobody: the world is stopped)
+    running: Option<usize>,
+    /// worker i was granted, made no progress for BLOCK_MS and is presumed to wait for a lock that
+    /// a parked worker holds; it is skipped until it shows up at its next scheduling point
+    blocked: Vec<bool>,
     pending: Vec<Option<PSite>>,
     done: Vec<bool>,
     abort: bool,
@@ -181,6 +184,8 @@ pub struct ExecResult {
     pub trace: Vec<(u8, Op, u32)>,
     /// bit mask of the runnable threads at every granted step (same index as `trace`)
     pub runnable: Vec<u8>,
+    /// how often a granted worker was presumed blocked on a lock (see BLOCK_MS)
+    pub blocked_events: u64,
     pub switch_pairs: HashSet<(Op, u32, Op, u32)>,
     pub sites: HashSet<(Op, u32)>,
     pub site_files: std::collections::HashMap<(Op, u32), &'static str>,
@@ -225,12 +230,16 @@ pub fn on_hook(shared: &Arc<Shared>, me: usize, site: &Site) {
         line: site.loc.line(),
         file: site.loc.file(),
     });
-    st.turn = Turn::Scheduler;
+    st.granted[me] = false;
+    st.blocked[me] = false;
+    if st.running == Some(me) {
+        st.running = None;
+    }
     shared.cv.notify_all();
-    while st.turn != Turn::Worker(me) && !st.abort {
+    while !st.granted[me] && !st.abort {
         st = shared.cv.wait(st).unwrap();
     }
-    if st.abort && st.turn != Turn::Worker(me) {
+    if st.abort && !st.granted[me] {
         drop(st);
         std::panic::panic_any(OVERRUN_MSG);
     }
@@ -281,6 +290,7 @@ pub fn run_exec(
             trace_hash: 0,
             trace: Vec::new(),
             runnable: Vec::new(),
+            blocked_events: 0,
             switch_pairs: HashSet::new(),
             sites: HashSet::new(),
             site_files: Default::default(),
@@ -290,7 +300,9 @@ pub fn run_exec(
     }
     let shared = Arc::new(Shared {
         m: Mutex::new(State {
-            turn: Turn::Scheduler,
+            granted: vec![false; n],
+            running: None,
+            blocked: vec![false; n],
             pending: vec![None; n],
             done: vec![false; n],
             abort: false,
@@ -307,6 +319,7 @@ pub fn run_exec(
         trace_hash: 0xcbf2_9ce4_8422_2325,
         trace: Vec::new(),
         runnable: Vec::new(),
+        blocked_events: 0,
         switch_pairs: HashSet::new(),
         sites: HashSet::new(),
         site_files: Default::default(),
@@ -331,11 +344,11 @@ pub fn run_exec(
                         file: "<start>",
                     });
                     shared.cv.notify_all();
-                    while st.turn != Turn::Worker(i) && !st.abort {
+                    while !st.granted[i] && !st.abort {
                         st = shared.cv.wait(st).unwrap();
                     }
                     st.pending[i] = None;
-                    if st.abort && st.turn != Turn::Worker(i) {
+                    if st.abort && !st.granted[i] {
                         st.done[i] = true;
                         shared.cv.notify_all();
                         return;
@@ -357,7 +370,11 @@ pub fn run_exec(
                 let mut st = shared.m.lock().unwrap();
                 st.done[i] = true;
                 st.pending[i] = None;
-                st.turn = Turn::Scheduler;
+                st.granted[i] = false;
+                st.blocked[i] = false;
+                if st.running == Some(i) {
+                    st.running = None;
+                }
                 shared.cv.notify_all();
             });
         }
@@ -368,14 +385,27 @@ pub fn run_exec(
         let deadline = Instant::now() + Duration::from_secs(20);
         loop {
             let mut st = shared.m.lock().unwrap();
-            // quiescent = scheduler's turn and every live worker is parked
+            // quiescent = nobody is running and every live worker is parked (or presumed blocked
+            // on a lock held by a parked worker)
+            let wait_start = Instant::now();
             loop {
-                let quiet = st.turn == Turn::Scheduler
-                    && (0..n).all(|i| st.done[i] || st.pending[i].is_some());
+                let quiet = st.running.is_none()
+                    && (0..n).all(|i| st.done[i] || st.pending[i].is_some() || st.blocked[i]);
                 if quiet {
                     break;
                 }
                 let now = Instant::now();
+                if let Some(r) = st.running {
+                    // no progress for a while and somebody else could be holding what it waits
+                    // for: presume it blocked and go on with the parked workers
+                    let others_parked = (0..n).any(|i| i != r && !st.done[i] && st.pending[i].is_some());
+                    if others_parked && now.duration_since(wait_start) > Duration::from_millis(BLOCK_MS) {
+                        st.blocked[r] = true;
+                        st.running = None;
+                        res.blocked_events += 1;
+                        continue;
+                    }
+                }
                 if now >= deadline {
                     WATCHDOGS.fetch_add(1, std::sync::atomic::Ordering::Relaxed);
                     res.verdict = Verdict::Watchdog;
@@ -383,7 +413,7 @@ pub fn run_exec(
                     shared.cv.notify_all();
                     break;
                 }
-                let (g, _) = shared.cv.wait_timeout(st, Duration::from_millis(200)).unwrap();
+                let (g, _) = shared.cv.wait_timeout(st, Duration::from_millis(BLOCK_MS / 2 + 1)).unwrap();
                 st = g;
             }
             if res.verdict == Verdict::Watchdog {
@@ -407,7 +437,22 @@ pub fn run_exec(
                 .filter(|i| !st.done[*i] && st.pending[*i].is_some())
                 .collect();
             if runnable.is_empty() {
-                break;
+                if (0..n).all(|i| st.done[i]) {
+                    break;
+                }
+                // only presumed-blocked workers are left: they are running, wait for them
+                if Instant::now() >= deadline {
+                    WATCHDOGS.fetch_add(1, std::sync::atomic::Ordering::Relaxed);
+                    res.verdict = Verdict::Watchdog;
+                    st.abort = true;
+                    shared.cv.notify_all();
+                    drop(st);
+                    break;
+                }
+                let (g, _) = shared.cv.wait_timeout(st, Duration::from_millis(5)).unwrap();
+                drop(g);
+                last = None;
+                continue;
             }
             if res.steps >= budget {
                 res.verdict = Verdict::Overrun;
@@ -435,7 +480,8 @@ pub fn run_exec(
             }
             last_pending_of[w] = Some(site);
             last = Some(w);
-            st.turn = Turn::Worker(w);
+            st.granted[w] = true;
+            st.running = Some(w);
             shared.cv.notify_all();
         }
         // make sure every worker gets out (abort path): wait until all are done
